@@ -409,3 +409,48 @@ impl Toks {
         self.fs(&p.public_inputs);
     }
 }
+
+// ---------------------------------------------------------------- STARK proofs (C09 / C10)
+use starky::proof::{StarkOpeningSet, StarkProof, StarkProofWithPublicInputs};
+
+impl Toks {
+    /// `Option<MerkleCap>`: presence flag, then the cap
+    pub fn opt_cap(&mut self, c: &Option<MerkleCap<F, H>>) {
+        match c {
+            None => self.n(0),
+            Some(c) => { self.n(1); self.cap(c) }
+        }
+    }
+    pub fn opt_es(&mut self, xs: &Option<Vec<FE>>) {
+        match xs {
+            None => self.n(0),
+            Some(v) => { self.n(1); self.es(v) }
+        }
+    }
+    pub fn opt_fs(&mut self, xs: &Option<Vec<F>>) {
+        match xs {
+            None => self.n(0),
+            Some(v) => { self.n(1); self.fs(v) }
+        }
+    }
+    /// mirrored by `pStarkOpeningSet` of lean/P2/Drv/Stark.lean
+    pub fn stark_opening_set(&mut self, o: &StarkOpeningSet<F, 2>) {
+        self.es(&o.local_values);
+        self.es(&o.next_values);
+        self.opt_es(&o.auxiliary_polys);
+        self.opt_es(&o.auxiliary_polys_next);
+        self.opt_fs(&o.ctl_zs_first);
+        self.opt_es(&o.quotient_polys);
+    }
+    pub fn stark_proof(&mut self, p: &StarkProof<F, C, 2>) {
+        self.cap(&p.trace_cap);
+        self.opt_cap(&p.auxiliary_polys_cap);
+        self.opt_cap(&p.quotient_polys_cap);
+        self.stark_opening_set(&p.openings);
+        self.fri_proof(&p.opening_proof);
+    }
+    pub fn stark_proof_with_pis(&mut self, p: &StarkProofWithPublicInputs<F, C, 2>) {
+        self.stark_proof(&p.proof);
+        self.fs(&p.public_inputs);
+    }
+}
